@@ -6,7 +6,7 @@ import PV.Gen.C12VisitProg
 /-! Driver for C12: answers the same request lines as `harness/src/bin/pvh_c12.rs`, running the generic
     interpreters of `PV/C12/Model.lean` over the programs regenerated from the Rust sources.
 
-    Request: `<op> <src-hex> <tree words…>`; the source text is ignored here, the tree is
+    Request: `<op> <src-hex> [<visit kinds csv>, for op visit] <tree words…>`; the source text is ignored here, the tree is
       tree ::= N <kind id> <a..b | -> <n> tree^n | L <n> tree^n | S tree | O | A <hex of leaf text> -/
 open PV PV.C12
 
@@ -88,14 +88,16 @@ def moduleBody (t : Tree) : Tree :=
     | none => .list []
   | _ => .list []
 
-def answer (op : String) (t : Tree) : String :=
+def answer (op : String) (vkinds : List String) (t : Tree) : String :=
   if !(decide (Conforms Gen.schema t)) then "nonconforming-tree" else
   match op with
   | "fold" =>
     let r := foldWith Gen.foldProg id t
     s!"eq={r.1.beq t} ev={joinSep "," (r.2.filterMap showFEv)}"
   | "visit" =>
-    s!"ev={joinSep "," ((visitWith Gen.visitProg Gen.schema (moduleBody t)).map showVEv)}"
+    -- only the kinds whose visit methods the harness overrides are reported (list sent with the request)
+    let evs := (visitWith Gen.visitProg Gen.schema (moduleBody t)).filter fun e => vkinds.contains (kindName e.kind)
+    s!"ev={joinSep "," (evs.map showVEv)}"
   | "walk" =>
     s!"ev={joinSep "," ((interestingNodes Gen.schema (moduleBody t)).map showVEv)}"
   | "ranges" =>
@@ -108,8 +110,10 @@ def answer (op : String) (t : Tree) : String :=
 
 def handle : List String → String
   | op :: _src :: rest =>
+    let base := (op.splitOn ":").headD op
+    let (vkinds, rest) := if base == "visit" then (rest.headD "" |>.splitOn ",", rest.drop 1) else ([], rest)
     match parseTree rest with
-    | some (t, []) => answer ((op.splitOn ":").headD op) t
+    | some (t, []) => answer base vkinds t
     | _ => "bad-tree"
   | _ => "bad-request"
 
